@@ -166,7 +166,7 @@ def m4(ctx):
         condblocks = set()
         for bi in s.normal_blocks():
             tt = s.blocks[bi]['term']
-            if is_cond_call(ctx.facts, tt):
+            if is_cond_call(ctx.facts, tt, s):
                 condblocks.add(bi)
         for (src, dst) in sorted(removed):
             ctx.oblige(1, sample='cond()==true edge bb%d->bb%d leads straight to return' % (src, dst))
@@ -198,17 +198,46 @@ def m4(ctx):
 FN_CALLS = ('std::ops::Fn::call', 'std::ops::FnMut::call_mut', 'std::ops::FnOnce::call_once')
 
 
+def closure_of_operand(body, o, depth=0):
+    """key of the closure an operand denotes (a local assigned a closure aggregate, possibly through copies / borrows)"""
+    if depth > 6 or not isinstance(o, dict):
+        return None
+    if o.get('k') in ('copy', 'move') and not [x for x in o['p']['p'] if x != '*']:
+        l = o['p']['l']
+        defs = [s for blk in body.blocks for s in blk['stmts'] if s['k'] == 'assign' and not s['lhs']['p'] and s['lhs']['l'] == l]
+        if len(defs) == 1:
+            rv = defs[0]['rv']
+            if rv['k'] == 'agg' and rv.get('ak') == 'closure':
+                return rv.get('name')
+            if rv['k'] == 'use':
+                return closure_of_operand(body, rv['o'], depth + 1)
+            if rv['k'] in ('ref', 'rawptr') and not [x for x in rv['p']['p'] if x != '*']:
+                return closure_of_operand(body, {'k': 'copy', 'p': {'l': rv['p']['l'], 'p': []}}, depth + 1)
+    return None
+
+
+def any_is_cond_like(facts, body, t):
+    """`iter.any(closure)` with a closure that answers true only after the condition was observed true: `any` itself then
+    returns true only after the condition was observed true"""
+    if t['k'] != 'call' or not t.get('fn') or canon(t['fn']['path']) != 'std::iter::Iterator::any' or len(t['args']) != 2:
+        return False
+    ck = closure_of_operand(body, t['args'][1])
+    return ck is not None and cond_like(facts, ck)
+
+
 def cond_like(facts, key, _seen=None):
     """a crate-local helper that evaluates the condition closure it is given and returns true ONLY if the condition was
     observed true (e.g. `fn poll_cond(cond, tries) -> bool { for _ in 0..tries { if cond() { return true } } false }`)"""
     b = facts.bodies.get(key)
-    if b is None or b.j.get('def_kind') != 'Fn' and b.j.get('def_kind') != 'AssocFn':
+    if b is None or b.j.get('def_kind') not in ('Fn', 'AssocFn', 'Closure'):
         return False
     cache = facts.__dict__.setdefault('_condlike', {})
     if key in cache:
         return cache[key]
     cache[key] = False
-    if not any(n in FN_CALLS for n in b.callee_names()):
+    names_ = set(b.callee_names())
+    if not any(n in FN_CALLS for n in names_) and 'std::iter::Iterator::any' not in names_ and not any(
+            t_.get('fn') and t_['fn'].get('local') and cond_like(facts, t_['fn']['path']) for _, t_ in b.all_calls()):
         return False
     ps = b.paths(1)
     if not ps:
@@ -225,6 +254,16 @@ def cond_like(facts, key, _seen=None):
             continue
         if r[0] == 'call' and r[2] in FN_CALLS:
             continue
+        if r[0] == 'call' and r[2] == 'std::iter::Iterator::any' and len(r[3]) == 2:
+            cv = r[3][1]
+            if cv[0] in ('ref', 'rawptr') and len(cv) > 2 and cv[2] is not None:
+                cv = cv[2]
+            if cv[0] == 'agg' and cv[1] == 'closure' and cond_like(facts, cv[2]):
+                continue
+        if r[0] == 'call' and facts.bodies.get(r[2]) is None:
+            cands = [k_ for k_ in facts.bodies if canon(k_) == r[2]]
+            if len(cands) == 1 and cond_like(facts, cands[0]):
+                continue
         if r[0] == 'const' and r[1] == 'bool' and r[2] == '1':
             conds = [e for e in p.events if e.kind == 'br' and e.label == 'cond']
             if conds and conds[-1].outcome == 'T':
@@ -258,13 +297,15 @@ def cond_until(facts, key):
     return ok
 
 
-def is_cond_call(facts, t):
+def is_cond_call(facts, t, body=None):
     if t['k'] != 'call' or not t.get('fn'):
         return False
     n = canon(t['fn']['path'])
     if n in FN_CALLS:
         return True
     if facts is not None and t['fn'].get('local') and (cond_like(facts, t['fn']['path']) or cond_until(facts, t['fn']['path'])):
+        return True
+    if facts is not None and body is not None and any_is_cond_like(facts, body, t):
         return True
     return False
 
@@ -276,7 +317,7 @@ def cond_true_edges(body, facts=None):
     ncond = 0
     for bi in body.normal_blocks():
         t = body.blocks[bi]['term']
-        if not is_cond_call(facts, t):
+        if not is_cond_call(facts, t, body):
             continue
         if facts is not None and t.get('fn') and t['fn'].get('local') and canon(t['fn']['path']) not in FN_CALLS and cond_until(facts, t['fn']['path']):
             # returning from such a helper IS the observation that the condition held
@@ -344,7 +385,7 @@ def m5(ctx):
             t = s.blocks[bi]['term']
             if t['k'] == 'call' and t.get('fn'):
                 n = canon(t['fn']['path'])
-                if is_cond_call(ctx.facts, t):
+                if is_cond_call(ctx.facts, t, s):
                     has_cond = True
                 if n == 'std::iter::Iterator::next' and any('Range' in a for a in t['fn']['args']):
                     # bounded if the None edge leaves the component
